@@ -53,7 +53,7 @@ macro_rules
 theorem inv1_init (cfg : Cfg) (hs : cfg.code.Sound) : Inv1 cfg (init cfg) := by
   unfold init
   split
-  · refine ⟨?_, ?_, ?_, ?_, ?_⟩ <;> simp [pendC, runC, begunCount, endedCount, skippedCount, hs.seqLoop, nW, *]
+  · refine ⟨?_, ?_, ?_, ?_, ?_⟩ <;> simp [pendC, runC, begunCount, endedCount, skippedCount, hs.seqLoop, hs.seqInit, hs.seqPost, effN_eq hs, nW, *]
     · intro i
       by_cases h0 : 0 < cfg.n <;> by_cases hi : i = 0 <;> simp [isPend, h0, hi] <;> omega
     · intro i; split <;> simp [isRun]
@@ -86,11 +86,11 @@ macro_rules
       refine ⟨?_, ?_, ?_, ?_, ?_⟩
       · simp only [List.length_set]; exact ($hi).len
       · exact ($hi).seq
-      · simp only [($hs).counterDelta]; omega
+      · simp only [($hs).counterDelta, ($hs).seqPost]; omega
       · intro i
         have hp := countP_ge_of (isPend i) $hw
         have h2 := ($hi).A i
-        simp [countP_set_sub $hw, ($hs).workerDone, ($hs).fetch, ($hs).counterDelta, ($hs).seqLoop, isPend, pendC, begunCount, skippedCount, List.countP_append] at * <;> grind
+        simp [countP_set_sub $hw, ($hs).workerDone, ($hs).fetch, ($hs).counterDelta, ($hs).seqLoop, ($hs).seqInit, ($hs).seqPost, effN_eq $hs, isPend, pendC, begunCount, skippedCount, List.countP_append] at * <;> grind
       · intro i
         have hp := countP_ge_of (isRun i) $hw
         have h2 := ($hi).B i
